@@ -73,7 +73,20 @@ def gen_interfere(r, tier):
             ks = distinct_keys(pm)
             best = min(ks, key=lambda k: (abs(k - tgt), k))
             return pm[best]
+        blind_at = r.range(2, ncyc - 1) if (kind != "cmd" and not outage and ncyc > 3 and r.chance(0.2)) else -1
         for c in range(ncyc):
+            if c == blind_at:
+                # a cycle that cannot SEE the register (every read of the PWM attribute fails: an EC answering EIO after resume)
+                # while something else has just changed it and writes work: the cycle writes its value all the same, so the
+                # fan is where the target dictates afterwards (seed C05k: the write was skipped when the value remembered from
+                # the last successful read was the requested one). Judged: the register and the mode; not the counter.
+                ops.append("#blind")
+                ops.append(f"w.dev pwmread=perm pwm={r.range(0, 255)}")
+                now += 200_000_000
+                ops.append(f"w.cycle curve={curve} now={now}")
+                ops.append("w.dev pwmread=ok")
+                ops.append("#unblind")
+                continue
             if c == at or r.chance(0.1):
                 t = []
                 if kind != "cmd" and r.chance(0.12):
@@ -172,6 +185,7 @@ class C05(Prop):
                     else:
                         left = None
                     continue
+                blind = any(cops[k].startswith("#blind") for k in range(max(0, i - 2), i))
                 if post.get("res") != "ok":
                     break
                 if post.get("last", "-") == "-":
@@ -187,7 +201,7 @@ class C05(Prop):
                     break
                 dcnt = int(post["cnt"]) - int(pre["cnt"])
                 want = 1 if (left is not None and int(pre["pwm"]) != left) else 0
-                if dcnt != want:
+                if dcnt != want and not blind:
                     out.append(viol(f"third-party counter changed by {dcnt}, expected {want} (register before the cycle {pre['pwm']}, left by fan2go {left})", cops, cgo, upto=i))
                     break
                 left = int(post["pwm"])
